@@ -88,7 +88,11 @@ pub fn run(ctx: &Ctx, rep: &mut Report) {
     for s in ["do { a = 1; -b; return 1 }", "a = 1\n(-b)", "(-x)!", "(-x)(1)", "(-x)[0]", "(-x).f", "-(-x)", "!(!x)", "(x!)!", "-(x!)", "(x => x)(1)", "(if a then b else c)(1)",
               "(if a then b else c).f", "(x = 1)[0]", "-(x => x)", "-(if a then b else c)", "[...(a + b)]", "f(...(a via g))",
               "{...(a ?? b)}", "'say \"hi\"' + \"it's\"", "{\"a b\": 1, 'q\"x': 2}", "1e999", "x => y => (x via z)",
-              "if (if a then b else c) then (if d then e else f) else (if g then h else i)", "(a and b) via (c or d)"] {
+              "if (if a then b else c) then (if d then e else f) else (if g then h else i)", "(a and b) via (c or d)",
+              // a statement that starts with a name spelled like a word operator (repo 1decf6c)
+              "f = (a, where, x) => do { a; where into x\n return 1 }", "do { a; via into f; into where g; where via h\n return 1 }",
+              "via = 3\nvia + 1", "into = [1]\ninto via sum\n(where and into)", "do { via = 1; via\n return via }", "do { a; via(1); via.b; via[0]\n return 1 }",
+              "do { a; via + bbbbbbbbbbbbbbbbbbbbbbbbbbbbbbbbbbbbbbbbbbbbbbbbbbbbbbbbbbbbbbbbbbbbbbbbbbbbbbbbbbbbbbbbbbbbbbbbbbb\n return 1 }"] {
         fixed.push(s.to_string());
     }
     for src in &fixed {
